@@ -15,6 +15,7 @@ import SodiumModel.Driver.C07spec
 import SodiumModel.Driver.C13
 import SodiumModel.Driver.C19
 import SodiumModel.Driver.C12
+import SodiumModel.Driver.C08
 open Sodium.Driver
 
 def handlers : List (String → List String → Option String) := [
@@ -31,6 +32,7 @@ def handlers : List (String → List String → Option String) := [
   Sodium.Driver.C13.handle,
   Sodium.Driver.C19.handle,
   Sodium.Driver.C12.handle,
+  Sodium.Driver.C08.handle,
   Sodium.Driver.C07spec.handle,
   Sodium.Driver.C05.handle
 ]
